@@ -16,8 +16,7 @@ def heap_traces(rep, tier):
         NP, K = rng.choice([(4, 2), (6, 2), (6, 3), (5, 3)])
         raw = i % 2 == 1
         jobs.append((NP, K, rng.randint(3, 8), raw, rng.randrange(1 << 30)))
-    with mp.get_context("fork").Pool(common.NCPU) as pool:
-        traces = pool.map(drv_modelheap.sequence, jobs, chunksize=4)
+    traces = common.pmap_chunked(drv_modelheap.sequence, jobs, chunk=4)
     groups = {}
     for t in traces:
         if t["events"]:
@@ -47,7 +46,7 @@ def heap_traces(rep, tier):
 def run(tier):
     rep = common.Report("C13", tier, LEVEL)
     _common.model_checks(rep, [("ModelHeap", "ModelHeap_a.cfg"), ("ModelHeap", "ModelHeap_b.cfg")] +
-                         list(_common.TICC_MODELS[tier][:1]))
+                         list(_common.TICC_MODELS[tier]))
     traces = heap_traces(rep, tier)
     # (B) every phase boundary of every traced complete run
     from .. import corpus
